@@ -409,9 +409,23 @@ fn judge_call<F: Float>(obj: &FFT<F>, a: &[i32], b: &[i32]) -> Result<(), Failed
         // accumulate-into form of the inverse as well
         let mut acc: Vec<i64> = (0..n).map(|i| if i % 2 == 0 { 5 } else { (1i64 << 55) + 9 }).collect();
         o3.fft_inv_into(&prod, &mut acc);
-        (inv, acc)
+        (inv, acc, prod)
     })
     .map_err(|p| ("transform_panics", format!("fft / fft_inv panicked: {p}")))?;
+    // 4b. the inverse transform ALONE on objects with other histories: the result of a public method must
+    // not depend on what its object computed earlier — a fresh object, and a copy of the object as it was
+    // BEFORE the forward transforms (its tables may be smaller than n), must invert the same spectrum alike
+    {
+        let prod = &viat.2;
+        let mut fresh = FFT::<F>::new();
+        let mut before = cloned()?;
+        for (label, o) in [("a fresh object", &mut fresh), ("a copy of the object taken before the forward transforms", &mut before)] {
+            let inv = catch(|| o.fft_inv(prod)).map_err(|p| ("transform_panics", format!("fft_inv on {label} panicked: {p}")))?;
+            if inv != viat.0 {
+                return Err(("history_independence", format!("fft_inv of the same spectrum (n = {n}) gives {} on the object that computed the forward transforms and {} on {label}; {}", show(&viat.0), show(&inv), first_diff(&inv, &viat.0))));
+            }
+        }
+    }
     let mut padded = exp.clone();
     padded.resize(n, 0);
     if viat.0 != padded {
